@@ -6,12 +6,15 @@
    that satisfy the correctness contract (Section hypotheses = "SigCorrect").
    Proved ingredients (not assumed): b64d (b64e x) = Ok x, no '.' in b64e x,
    splitting a.b.c, the fixed-width R||S codec.
-   PARTIAL: the key is given as a key (KOne); key sets / callables and the
-   rfc7797 b64=false forms are covered by the differential run only. *)
+   Key sources: a key, a key set (kid absent: the header carries the chosen
+   key's kid), a callable (= its result); rfc7797 b64=false compact and
+   flattened JSON; and corollaries with the Gallina JSON model in place of the
+   JSON hypothesis. *)
 From Coq Require Import Lia.
 From Model Require Import Jws.
 From Gen Require Import Tables.
-From Proofs Require Import B64Proofs IntCodecProofs JwsProofs C03Proofs.
+From Model Require Import Json.
+From Proofs Require Import B64Proofs IntCodecProofs JsonProofs JwsProofs C03Proofs JwsJsonProofs.
 Open Scope N_scope.
 
 Section C03.
@@ -31,10 +34,21 @@ Section C03.
       (0 <= rr)%Z /\ (0 <= ss)%Z /\
       Z.to_N rr < 256 ^ N.of_nat (ec_len k) /\ Z.to_N ss < 256 ^ N.of_nat (ec_len k) /\
       ec_verify r (k_id k) msg rr ss = Ok true.
-  Hypothesis json_rt : forall h, json_loads (json_dumps (PDict h)) = Ok (PDict h) /\
-                                 bytes_ok (json_dumps (PDict h)) = true.
+  (* the JSON contract, for the header objects [hok] admits (discharged by the
+     Gallina JSON model in the *_json_model theorems below) *)
+  Variable hok : list (str * pv) -> bool.
+  Hypothesis json_rt : forall h, hok h = true ->
+      json_loads (json_dumps (PDict h)) = Ok (PDict h) /\
+      bytes_ok (json_dumps (PDict h)) = true /\ json_dumps (PDict h) <> [].
 
-  (* [corresponds k k']: k' is the public form of k (same material, type, curve, use; no key_ops) *)
+  Notation key_ok := (key_ok choose hok).
+  Notation mkey_ok := (mkey_ok choose).
+  Notation prot_hok := (prot_hok hok).
+
+  (* [corresponds k k']: k' is the public form of k (same material, type, curve, use; no key_ops).
+     [key_ok rg src src' h]: whatever key (and kid) the signer's key source src resolves
+     for header h, the verifier's key source src' resolves the corresponding key from the
+     produced header.  A callable key source is its result (a key or a key set). *)
 
   (* every algorithm model except "none": what sign produces, verify accepts *)
   Theorem c03_alg_rt : forall r k k' msg sig,
@@ -43,44 +57,192 @@ Section C03.
     bytes_ok sig = true /\ alg_verify mac pk_verify ec_verify r k' msg sig = Ok true.
   Proof. exact (alg_rt mac pk_sign pk_verify ec_sign ec_verify mac_octets pk_correct ec_correct). Qed.
 
+  (* ---- key sources ---- *)
+  Theorem c03_key_ok_one : forall rg k k' h,
+    corresponds k k' -> (0 < ec_len k)%nat -> hok h = true -> key_ok rg (KOne k) (KOne k') h.
+  Proof. intros; eapply key_ok_one; eassumption. Qed.
+
+  (* key set with kid absent from the header: the header gets the chosen key's kid and the
+     consumer's lookup by that kid returns the corresponding key (duplicate-free kids) *)
+  Theorem c03_key_ok_set : forall rg ks ks' h,
+    (forall l x, choose l = Some x -> In x l) ->
+    Forall2 corresponds_kid ks ks' -> NoDup (map k_kid ks) ->
+    (forall k, In k ks -> (0 < ec_len k)%nat) ->
+    dget h s_kid = None -> (forall id, hok (dset h s_kid (PStr id)) = true) ->
+    key_ok rg (KSet ks) (KSet ks') h.
+  Proof. intros; eapply key_ok_set; eassumption. Qed.
+
+  Theorem c03_mkey_ok_one : forall rg k k' m,
+    corresponds k k' -> (0 < ec_len k)%nat -> mkey_ok rg (KOne k) (KOne k') m.
+  Proof. intros; eapply mkey_ok_one; eassumption. Qed.
+
+  Theorem c03_mkey_ok_set : forall rg ks ks' m,
+    (forall l x, choose l = Some x -> In x l) ->
+    Forall2 corresponds_kid ks ks' -> NoDup (map k_kid ks) ->
+    (forall k, In k ks -> (0 < ec_len k)%nat) ->
+    dget (smember_headers m) s_kid = None ->
+    mkey_ok rg (KSet ks) (KSet ks') m.
+  Proof. intros; eapply mkey_ok_set; eassumption. Qed.
+
+  (* ---- compact ---- *)
+  Theorem c03_compact_rt_gen : forall h payload src src' algs tok,
+    key_ok (reg15 algs) src src' h -> bytes_ok payload = true ->
+    (forall r, get_alg (reg15 algs) (match dget h s_alg with Some v => v | None => PNone end) = Ok r -> fam_of r <> FNone) ->
+    serialize_compact json_dumps mac pk_sign ec_sign choose h payload src algs = Ok tok ->
+    exists o k okid,
+      guess_key_sign choose src h = Ok (k, okid) /\
+      deserialize_compact json_loads mac pk_verify ec_verify tok src' algs = Ok o /\
+      co_payload o = payload /\ co_protected o = PDict (set_kid h okid).
+  Proof. intros h payload src src' algs tok; eapply compact_rt_gen; eassumption. Qed.
+
   Theorem c03_compact_rt : forall h payload k k' algs tok,
-    corresponds k k' -> (0 < ec_len k)%nat -> bytes_ok payload = true ->
+    corresponds k k' -> (0 < ec_len k)%nat -> bytes_ok payload = true -> hok h = true ->
     (forall r, get_alg (reg15 algs) (match dget h s_alg with Some v => v | None => PNone end) = Ok r -> fam_of r <> FNone) ->
     serialize_compact json_dumps mac pk_sign ec_sign choose h payload (KOne k) algs = Ok tok ->
     exists o, deserialize_compact json_loads mac pk_verify ec_verify tok (KOne k') algs = Ok o /\
               co_payload o = payload /\ co_protected o = PDict h.
-  Proof.
-    intros h payload k k' algs tok.
-    exact (compact_rt_rg json_loads json_dumps mac pk_sign pk_verify ec_sign ec_verify choose
-             mac_octets pk_correct ec_correct json_rt h payload k k' (reg15 algs) tok).
-  Qed.
+  Proof. intros h payload k k' algs tok; eapply compact_rt_rg; eassumption. Qed.
+
+  Theorem c03_compact_rt_keyset : forall h payload ks ks' algs tok,
+    (forall l x, choose l = Some x -> In x l) ->
+    Forall2 corresponds_kid ks ks' -> NoDup (map k_kid ks) ->
+    (forall k, In k ks -> (0 < ec_len k)%nat) ->
+    dget h s_kid = None -> (forall id, hok (dset h s_kid (PStr id)) = true) ->
+    bytes_ok payload = true ->
+    (forall r, get_alg (reg15 algs) (match dget h s_alg with Some v => v | None => PNone end) = Ok r -> fam_of r <> FNone) ->
+    serialize_compact json_dumps mac pk_sign ec_sign choose h payload (KSet ks) algs = Ok tok ->
+    exists o k id,
+      In k ks /\ k_kid k = Some id /\
+      deserialize_compact json_loads mac pk_verify ec_verify tok (KSet ks') algs = Ok o /\
+      co_payload o = payload /\ co_protected o = PDict (dset h s_kid (PStr id)).
+  Proof. intros h payload ks ks' algs tok; eapply compact_rt_keyset; eassumption. Qed.
+
+  (* ---- JSON ---- *)
+  Theorem c03_flat_rt_gen : forall m payload src src' algs v,
+    mkey_ok (reg15 algs) src src' m -> prot_hok m -> bytes_ok payload = true ->
+    (forall r, get_alg (reg15 algs) (match dget (smember_headers m) s_alg with Some v => v | None => PNone end) = Ok r -> fam_of r <> FNone) ->
+    sign_flattened_json json_dumps mac pk_sign ec_sign choose m payload (reg15 algs) src = Ok v ->
+    exists o k okid,
+      guess_key_sign choose src (smember_headers m) = Ok (k, okid) /\
+      deserialize_json json_loads mac pk_verify ec_verify v src' algs = Ok o /\
+      jo_payload o = payload /\ jo_members o = [smember_member (smember_set_kid m okid)].
+  Proof. intros m payload src src' algs v; eapply flat_rt_gen; eassumption. Qed.
 
   Theorem c03_flat_rt : forall m payload k k' algs v,
-    corresponds k k' -> (0 < ec_len k)%nat -> bytes_ok payload = true ->
+    corresponds k k' -> (0 < ec_len k)%nat -> bytes_ok payload = true -> prot_hok m ->
     (forall r, get_alg (reg15 algs) (match dget (smember_headers m) s_alg with Some v => v | None => PNone end) = Ok r -> fam_of r <> FNone) ->
     sign_flattened_json json_dumps mac pk_sign ec_sign choose m payload (reg15 algs) (KOne k) = Ok v ->
     exists o, deserialize_json json_loads mac pk_verify ec_verify v (KOne k') algs = Ok o /\
               jo_payload o = payload /\ jo_members o = [smember_member m].
-  Proof.
-    intros m payload k k' algs v.
-    exact (flat_rt_rg json_loads json_dumps mac pk_sign pk_verify ec_sign ec_verify choose
-             mac_octets pk_correct ec_correct json_rt m payload k k' (reg15 algs) v).
-  Qed.
+  Proof. intros m payload k k' algs v; eapply flat_rt_rg; eassumption. Qed.
 
-  (* general JSON with n >= 1 members *)
+  (* general JSON with n >= 1 members, any key sources *)
+  Theorem c03_general_rt_gen : forall ms payload src src' algs v,
+    bytes_ok payload = true -> ms <> [] ->
+    (forall m, In m ms -> mkey_ok (reg15 algs) src src' m /\ prot_hok m /\ forall r,
+        get_alg (reg15 algs) (match dget (smember_headers m) s_alg with Some v => v | None => PNone end) = Ok r -> fam_of r <> FNone) ->
+    sign_general_json json_dumps mac pk_sign ec_sign choose ms payload (reg15 algs) src = Ok v ->
+    exists o, deserialize_json json_loads mac pk_verify ec_verify v src' algs = Ok o /\
+              jo_payload o = payload /\
+              Forall2 (fun m m' => exists k okid, guess_key_sign choose src (smember_headers m) = Ok (k, okid) /\
+                                                  m' = smember_member (smember_set_kid m okid)) ms (jo_members o).
+  Proof. intros ms payload src src' algs v; eapply general_rt_gen; eassumption. Qed.
+
   Theorem c03_general_rt : forall ms payload k k' algs v,
     corresponds k k' -> (0 < ec_len k)%nat -> bytes_ok payload = true -> ms <> [] ->
-    (forall m, In m ms -> forall r,
+    (forall m, In m ms -> prot_hok m /\ forall r,
         get_alg (reg15 algs) (match dget (smember_headers m) s_alg with Some v => v | None => PNone end) = Ok r -> fam_of r <> FNone) ->
     sign_general_json json_dumps mac pk_sign ec_sign choose ms payload (reg15 algs) (KOne k) = Ok v ->
     exists o, deserialize_json json_loads mac pk_verify ec_verify v (KOne k') algs = Ok o /\
               jo_payload o = payload /\ jo_members o = map smember_member ms.
-  Proof.
-    intros ms payload k k' algs v.
-    exact (general_rt_rg json_loads json_dumps mac pk_sign pk_verify ec_sign ec_verify choose
-             mac_octets pk_correct ec_correct json_rt ms payload k k' (reg15 algs) v).
-  Qed.
+  Proof. intros ms payload k k' algs v; eapply general_rt_rg; eassumption. Qed.
+
+  (* ---- rfc7797, b64 = false ---- *)
+  (* compact: attached iff the payload matches ^[a-zA-Z0-9-_~]+$ (re.match: one trailing
+     newline allowed), otherwise detached (also when it is not UTF-8, with fix 8951e5f =
+     [lenient]) and verified with the payload argument *)
+  Theorem c03_7797_rt : forall lenient h payload src src' algs tok,
+    key_ok (reg97 algs) src src' h -> bytes_ok payload = true ->
+    (exists b, dget h s_b64 = Some b /\ b <> PBool true) ->
+    (forall okid, dget (set_kid h okid) s_b64 = dget h s_b64) ->
+    (forall r, get_alg (reg97 algs) (match dget h s_alg with Some v => v | None => PNone end) = Ok r -> fam_of r <> FNone) ->
+    serialize_compact97 json_dumps mac pk_sign ec_sign choose lenient h payload src algs = Ok tok ->
+    exists k okid hseg sseg,
+      guess_key_sign choose src h = Ok (k, okid) /\
+      tok = hseg ++ 46 :: (if urlsafe_re payload then payload else []) ++ 46 :: sseg /\
+      no_dot hseg = true /\ no_dot sseg = true /\
+      exists o,
+        deserialize_compact97 json_loads mac pk_verify ec_verify tok src'
+          (if urlsafe_re payload then None else Some payload) algs = Ok o /\
+        co_payload o = payload /\ co_protected o = PDict (set_kid h okid).
+  Proof. intros lenient h payload src src' algs tok; eapply compact97_rt_gen; eassumption. Qed.
+
+  (* flattened JSON with b64 = false (the model of the code with fix01, or before it) *)
+  Theorem c03_7797_json_rt : forall fixed m payload src src' algs v,
+    mkey_ok (reg97 algs) src src' m -> prot_hok m ->
+    (exists b, dget (smember_headers m) s_b64 = Some b /\ b <> PBool true) ->
+    (forall okid, dget (smember_headers (smember_set_kid m okid)) s_b64 = dget (smember_headers m) s_b64) ->
+    (forall r, get_alg (reg97 algs) (match dget (smember_headers m) s_alg with Some v => v | None => PNone end) = Ok r -> fam_of r <> FNone) ->
+    serialize_json97 json_dumps mac pk_sign ec_sign choose fixed m payload src algs = Ok v ->
+    exists o k okid,
+      guess_key_sign choose src (smember_headers m) = Ok (k, okid) /\
+      deserialize_json97 json_loads mac pk_verify ec_verify fixed v src' algs = Ok o /\
+      jo_payload o = payload /\ jo_members o = [smember_member (smember_set_kid m okid)].
+  Proof. intros fixed m payload src src' algs v; eapply json97_rt_gen; eassumption. Qed.
 End C03.
+
+(* the regular expression as a predicate: a matching payload has no '.' *)
+Theorem c03_urlsafe_no_dot : forall l, urlsafe_re l = true -> no_dot l = true.
+Proof. exact urlsafe_no_dot. Qed.
+
+(* ---- no JSON hypothesis left: json.dumps / json.loads are the Gallina JSON model ---- *)
+Section C03Json.
+  Variable mac : string -> N -> bytes -> res bytes.
+  Variable pk_sign : jws_alg_row -> N -> bytes -> res bytes.
+  Variable pk_verify : jws_alg_row -> N -> bytes -> bytes -> res bool.
+  Variable ec_sign : jws_alg_row -> N -> bytes -> res (Z * Z).
+  Variable ec_verify : jws_alg_row -> N -> bytes -> Z -> Z -> res bool.
+  Variable choose : list key -> option key.
+  Hypothesis mac_octets : forall h kid msg m, mac h kid msg = Ok m -> bytes_ok m = true.
+  Hypothesis pk_correct : forall r kid msg sig,
+      pk_sign r kid msg = Ok sig -> bytes_ok sig = true /\ pk_verify r kid msg sig = Ok true.
+  Hypothesis ec_correct : forall r k msg rr ss,
+      ec_sign r (k_id k) msg = Ok (rr, ss) ->
+      (0 <= rr)%Z /\ (0 <= ss)%Z /\
+      Z.to_N rr < 256 ^ N.of_nat (ec_len k) /\ Z.to_N ss < 256 ^ N.of_nat (ec_len k) /\
+      ec_verify r (k_id k) msg rr ss = Ok true.
+
+  Theorem c03_compact_rt_json_model : forall h payload k k' algs tok,
+    corresponds k k' -> (0 < ec_len k)%nat -> bytes_ok payload = true -> json_ok (PDict h) = true ->
+    (forall r, get_alg (reg15 algs) (match dget h s_alg with Some v => v | None => PNone end) = Ok r -> fam_of r <> FNone) ->
+    serialize_compact g_dumps mac pk_sign ec_sign choose h payload (KOne k) algs = Ok tok ->
+    exists o, deserialize_compact g_loads mac pk_verify ec_verify tok (KOne k') algs = Ok o /\
+              co_payload o = payload /\ co_protected o = PDict h.
+  Proof. intros h payload k k' algs tok; eapply compact_rt_json_model; eassumption. Qed.
+
+  Theorem c03_compact_rt_keyset_json_model : forall h payload ks ks' algs tok,
+    (forall l x, choose l = Some x -> In x l) ->
+    Forall2 corresponds_kid ks ks' -> NoDup (map k_kid ks) ->
+    (forall k, In k ks -> (0 < ec_len k)%nat) ->
+    (forall k id, In k ks -> k_kid k = Some id -> str_ok id = true) ->
+    dget h s_kid = None -> json_ok (PDict h) = true -> bytes_ok payload = true ->
+    (forall r, get_alg (reg15 algs) (match dget h s_alg with Some v => v | None => PNone end) = Ok r -> fam_of r <> FNone) ->
+    serialize_compact g_dumps mac pk_sign ec_sign choose h payload (KSet ks) algs = Ok tok ->
+    exists o k id,
+      In k ks /\ k_kid k = Some id /\
+      deserialize_compact g_loads mac pk_verify ec_verify tok (KSet ks') algs = Ok o /\
+      co_payload o = payload /\ co_protected o = PDict (dset h s_kid (PStr id)).
+  Proof. intros h payload ks ks' algs tok; eapply compact_rt_keyset_json_model; eassumption. Qed.
+
+  Theorem c03_flat_rt_json_model : forall m payload k k' algs v,
+    corresponds k k' -> (0 < ec_len k)%nat -> bytes_ok payload = true ->
+    match sm_protected m with Some d => json_ok (PDict d) = true | None => True end ->
+    (forall r, get_alg (reg15 algs) (match dget (smember_headers m) s_alg with Some v => v | None => PNone end) = Ok r -> fam_of r <> FNone) ->
+    sign_flattened_json g_dumps mac pk_sign ec_sign choose m payload (reg15 algs) (KOne k) = Ok v ->
+    exists o, deserialize_json g_loads mac pk_verify ec_verify v (KOne k') algs = Ok o /\
+              jo_payload o = payload /\ jo_members o = [smember_member m].
+  Proof. intros m payload k k' algs v; eapply flat_rt_json_model; eassumption. Qed.
+End C03Json.
 
 (* detaching leaves the header and signature segments untouched *)
 Theorem c03_detach_compact : forall h p s,
@@ -130,6 +292,18 @@ Example c03_compact_nonvacuous :
 Proof. eexists. split; [vm_compute; reflexivity|]. split; [repeat split|vm_compute; lia]. Qed.
 
 Print Assumptions c03_alg_rt.
+Print Assumptions c03_key_ok_set.
+Print Assumptions c03_mkey_ok_set.
+Print Assumptions c03_compact_rt_gen.
+Print Assumptions c03_compact_rt_keyset.
+Print Assumptions c03_flat_rt_gen.
+Print Assumptions c03_general_rt_gen.
+Print Assumptions c03_7797_rt.
+Print Assumptions c03_7797_json_rt.
+Print Assumptions c03_urlsafe_no_dot.
+Print Assumptions c03_compact_rt_json_model.
+Print Assumptions c03_compact_rt_keyset_json_model.
+Print Assumptions c03_flat_rt_json_model.
 Print Assumptions c03_compact_rt.
 Print Assumptions c03_flat_rt.
 Print Assumptions c03_general_rt.
